@@ -4,3 +4,5 @@ set -e
 cd "$(dirname "$0")/harness"
 export CARGO_NET_OFFLINE=true
 cargo build --release --offline --workspace 2>&1 | tail -5
+# the 1 KiB-chunk build of vh-client (C14/C15)
+"$(dirname "$0")/harness/pre-C14.sh"
